@@ -134,6 +134,12 @@ def _impl(tier, seed, search):
         'SE3*point': (lambda: SE3.Rx(th) * np.array([x, y, z], dtype=object), lambda t, x_, y_, z_: SE3.Rx(t) * np.array([x_, y_, z_]), [th, x, y, z]),
         'SO3*SO3': (lambda: SO3.Rx(th) * SO3.Rz(a1), lambda t, u: SO3.Rx(t) * SO3.Rz(u), [th, a1]), 'SO3.inv': (lambda: SO3.Rx(th).inv(), lambda t: SO3.Rx(t).inv(), [th]),
         'SO3.R': (lambda: SO3.Rx(th).R, lambda t: SO3.Rx(t).R, [th]),
+        'SE3.Rx([a,b]).inv()[1]': (lambda: SE3.Rx([th, a1]).inv().data[1], lambda t, u: SE3.Rx(u).inv(), [th, a1]),
+        'SE3.Rx([a,b]).inv().inv()[0]': (lambda: SE3.Rx([th, a1]).inv().inv().data[0], lambda t, u: SE3.Rx(t), [th, a1]),
+        '(SE3.Rx([a,b])*SE3(x,y,z))[1]': (lambda: (SE3.Rx([th, a1]) * SE3(x, y, z)).data[1], lambda t, u, x_, y_, z_: SE3.Rx(u) * SE3(x_, y_, z_), [th, a1, x, y, z]),
+        '(SE3(x,y,z)/SE3.Rx([a,b]))[0]': (lambda: (SE3(x, y, z) / SE3.Rx([th, a1])).data[0], lambda t, u, x_, y_, z_: SE3(x_, y_, z_) / SE3.Rx(t), [th, a1, x, y, z]),
+        'SO3.Rx([a,b]).inv()[1]': (lambda: SO3.Rx([th, a1]).inv().data[1], lambda t, u: SO3.Rx(u).inv(), [th, a1]),
+        '(SE3.Rx([a,b])*[x,y,z])[:,1]': (lambda: np.asarray(SE3.Rx([th, a1]) * np.array([x, y, z], dtype=object), dtype=object)[:, 1], lambda t, u, x_, y_, z_: (SE3.Rx(u) * np.array([x_, y_, z_])).flatten(), [th, a1, x, y, z]),
         'simplify': (lambda: (SE3.Rx(th) * SE3.Rx(-th)).simplify(), lambda t: SE3.Rx(t) * SE3.Rx(-t), [th]),
         'simplify(SE3 with t)': (lambda: (SE3.Rx(th) * SE3(x, y, z) * SE3.Ry(a1)).simplify(), lambda t, x_, y_, z_, u: SE3.Rx(t) * SE3(x_, y_, z_) * SE3.Ry(u), [th, x, y, z, a1]),
         'simplify(SE3(x,y,z))': (lambda: SE3(x, y, z).simplify(), lambda x_, y_, z_: SE3(x_, y_, z_), [x, y, z]),
